@@ -9,6 +9,7 @@ fn main() {
     match a.cmd.as_str() {
         "c10" => drivers::c10::main(&a),
         "c14" => drivers::c14::main(&a),
+        "sess" => drivers::sess_main(&a),
         other => {
             eprintln!("unknown sub-command {:?}", other);
             std::process::exit(2);
